@@ -12,7 +12,7 @@ def shape_args(rng, name):
     if name in ("sign", "thresh", "phase_est"):
         return {"delta": rng.choice([0.5, 1.0, 2.0, 5.0, 10.0, rng.uniform(0.5, 10)])}
     if name == "rect":
-        return {"delta": rng.choice([1.0, 2.0, 4.0]), "kappa": rng.choice([2, 3, 6]), "epsilon": rng.choice([0.1, 0.01, 0.3])}
+        return {"delta": rng.choice([1.0, 2.0, 4.0]), "kappa": rng.choice([2, 3, 6]), "epsilon": rng.choice([0.1, 0.01, 0.3, 0.5, 0.7])}
     if name == "linamp":
         return {"gamma": rng.choice([0.1, 0.25, 0.4]), "kappa": rng.choice([5, 10, 20])}
     if name == "gibbs":
